@@ -319,6 +319,10 @@ impl<'p, C: SimCfg> World<'p, C> {
     }
     fn leave(&mut self, i: usize) {
         self.nodes[i].rng = ggrs::verif::rng_state();
+        if self.plan.cfg.clock_bump_us > 0 {
+            // this node's clock has run ahead during the call; it never goes back
+            self.nodes[i].clock_floor = self.nodes[i].clock_floor.max(ggrs::verif::now_micros());
+        }
         ggrs::verif::set_clock_bump_micros(0);
         let m = crate::alloc::max_request();
         if m > crate::alloc::LIMIT {
@@ -1015,7 +1019,7 @@ impl<'p, C: SimCfg> World<'p, C> {
                     let r = if misuse {
                         if locals.len() > 1 {
                             let u = s.current_frame();
-                            let _ = s.add_local_input(locals[0], input_value(self.plan, locals[0], u, 0));
+                            let _ = s.add_local_input(locals[0], C::enc(input_value(self.plan, locals[0], u, 0)));
                         }
                         guarded(|| s.advance_frame().map(|r| r.len()))
                     } else {
@@ -1125,7 +1129,7 @@ impl<'p, C: SimCfg> World<'p, C> {
                 *att = (u, 0);
             }
             let v = input_value(plan, l, u, att.1);
-            if let Err(e) = s.add_local_input(l, v) {
+            if let Err(e) = s.add_local_input(l, C::enc(v)) {
                 let g = node.game.g;
                 self.viol.push(Violation { class: "c16.local_input_rejected".into(), text: format!("add_local_input({l}) for a local player returned {e:?}"), t_us: self.now, node: i, frame: g });
             }
@@ -1807,8 +1811,9 @@ impl<'p, C: SimCfg> World<'p, C> {
             probes,
             counters: core.counters.clone(),
             fired: core.fired.clone(),
-            trace_hash: self.trace.0,
-            sched_hash: self.sched.0,
+            // deliveries are hashed inside the network core (they also happen inside wait loops)
+            trace_hash: mix(self.trace.0 ^ core.trace.0.rotate_left(21)),
+            sched_hash: mix(self.sched.0 ^ core.sched.0.rotate_left(21)),
             nodes,
             end_us: self.now,
         }
@@ -1869,15 +1874,17 @@ pub fn run_plan(plan: &Plan) -> Result<RunOut, String> {
         return Ok(crate::builder::run(plan, calls, start));
     }
     if let Mode::SyncTest { check_distance, frames, expect_reject } = plan.mode {
-        return if plan.cfg.predict_default {
-            crate::synctest::run::<CfgDefault>(plan, check_distance, frames, expect_reject)
-        } else {
-            crate::synctest::run::<CfgRepeat>(plan, check_distance, frames, expect_reject)
+        return match (plan.cfg.variable_size_input, plan.cfg.predict_default) {
+            (false, true) => crate::synctest::run::<CfgDefault>(plan, check_distance, frames, expect_reject),
+            (false, false) => crate::synctest::run::<CfgRepeat>(plan, check_distance, frames, expect_reject),
+            (true, true) => crate::synctest::run::<CfgVarDefault>(plan, check_distance, frames, expect_reject),
+            (true, false) => crate::synctest::run::<CfgVarRepeat>(plan, check_distance, frames, expect_reject),
         };
     }
-    if plan.cfg.predict_default {
-        Ok(World::<CfgDefault>::new(plan)?.run())
-    } else {
-        Ok(World::<CfgRepeat>::new(plan)?.run())
+    match (plan.cfg.variable_size_input, plan.cfg.predict_default) {
+        (false, true) => Ok(World::<CfgDefault>::new(plan)?.run()),
+        (false, false) => Ok(World::<CfgRepeat>::new(plan)?.run()),
+        (true, true) => Ok(World::<CfgVarDefault>::new(plan)?.run()),
+        (true, false) => Ok(World::<CfgVarRepeat>::new(plan)?.run()),
     }
 }
